@@ -31,6 +31,16 @@ func (afs *osFS) OpenFile(path fs.RelPath, flag int, perms fs.Perms) (fs.File, e
 	if err != nil {
 		return nil, err
 	}
+	// open(2) follows a symlink in the last segment unless O_EXCL (or O_NOFOLLOW) is given; when it
+	// would, we have to resolve that link ourselves, or the kernel resolves it against the host root.
+	if flag&(os.O_EXCL|syscall.O_NOFOLLOW) == 0 {
+		if _, isLink, _ := afs.readlink(rpath); isLink {
+			rpath, err = afs.realpath(path, true)
+			if err != nil {
+				return nil, err
+			}
+		}
+	}
 	f, err := os.OpenFile(rpath, flag, permsToOs(perms))
 	return f, fs.NormalizeIOError(err)
 }
